@@ -268,8 +268,15 @@ class Simulator:
             self._initialise_integrator()
             return self
 
-        self.y0 = sim_variables[-1].iloc[-1, :].to_dict() | variables
-        self._time_shift = float(sim_variables[-1].index[-1])
+        t_reached = float(sim_variables[-1].index[-1])
+        # Updates made since the last simulated segment are still pending in self.y0
+        state = (
+            self.y0
+            if self._time_shift == t_reached
+            else sim_variables[-1].iloc[-1, :].to_dict()
+        )
+        self.y0 = state | variables
+        self._time_shift = t_reached
         self._initialise_integrator()
         return self
 
